@@ -413,10 +413,13 @@ func (m *Mod) litArr(s string) string {
 	return n
 }
 
-func (m *Mod) litDecls(cex bool) string {
+func (m *Mod) litDecls(cex bool, used func(name string) bool) string {
 	var b strings.Builder
 	for i, s := range m.litOrd {
 		n := m.lits[s]
+		if used != nil && !used(n) {
+			continue // this query never mentions the literal
+		}
 		fmt.Fprintf(&b, "(declare-const %s (Array Int Int)) ; %q\n", n, trunc(s, 40))
 		for j := 0; j < len(s); j++ {
 			fmt.Fprintf(&b, "(assert (= (select %s %d) %d))\n", n, j, s[j])
